@@ -125,6 +125,11 @@ def run(sid, props):
     if rc != 0:
         print('patch does not apply:', o)
         return 2
+    saved = {}
+    for p in props:
+        ev = os.path.join(V, 'evidence', p + '.json')
+        if os.path.exists(ev):
+            saved[ev] = open(ev).read()
     try:
         for p in props:
             t0 = time.time()
@@ -143,6 +148,9 @@ def run(sid, props):
     finally:
         sh(['git', '-C', REPO, 'checkout', '--', '.'])
         sh(['git', '-C', REPO, 'clean', '-fdq'])
+        # evidence files must describe clean-tree runs only: put back what was there before the mutant run
+        for ev, content in saved.items():
+            open(ev, 'w').write(content)
     rp = os.path.join(d, 'result.json')
     old = json.load(open(rp)) if os.path.exists(rp) else {}
     old.update(results)
